@@ -31,6 +31,8 @@ func C19(c *Ctx) {
 	c19Reader(c, run)
 	c.R.Rule("C19-R8", "E3", "a step's timeout is armed once per step (it runs from the start of the step)", 1)
 	c19TimeoutArmedOnce(c, "C19-R8", run)
+	c.R.Rule("C19-R9", "E3", "every line read from the subprocess is compared with the step's outputs", 1)
+	c19EveryLineMatched(c, "C19-R9", run)
 	// the function that matches output lines
 	var F *ssa.Function
 	var matchCall *ssa.Call
